@@ -5,6 +5,8 @@ import (
 	"encoding/json"
 	"fmt"
 	"io"
+	"strconv"
+	"unicode/utf16"
 
 	"github.com/buger/jsonparser"
 
@@ -161,12 +163,32 @@ func (d *Document) writeJSONValue(buf *bytes.Buffer, value Value) error {
 		} else {
 			// raw control characters (e.g. TAB) are legal inside a GraphQL string but not inside a JSON string
 			buf.WriteByte('"')
-			for _, c := range d.StringValueContentBytes(value.Ref) {
+			content := d.StringValueContentBytes(value.Ref)
+			for i := 0; i < len(content); i++ {
+				c := content[i]
 				if c < 0x20 {
 					fmt.Fprintf(buf, `\u%04x`, c)
 					continue
 				}
 				buf.WriteByte(c)
+				if c != '\\' || i+1 == len(content) {
+					continue
+				}
+				// c starts an escape sequence: JSON has the same ones, except for the braced form \u{1F600}
+				rest := content[i+1:]
+				if rest[0] == '\\' {
+					buf.WriteByte('\\')
+					i++
+				} else if end := bytes.IndexByte(rest, '}'); end > 2 && rest[0] == 'u' && rest[1] == '{' {
+					if cp, err := strconv.ParseUint(string(rest[2:end]), 16, 32); err == nil {
+						if r1, r2 := utf16.EncodeRune(rune(cp)); cp > 0xFFFF {
+							fmt.Fprintf(buf, `u%04x\u%04x`, r1, r2)
+						} else {
+							fmt.Fprintf(buf, `u%04x`, cp)
+						}
+						i += end + 1
+					}
+				}
 			}
 			buf.WriteByte('"')
 		}
